@@ -193,6 +193,10 @@ func c09() {
 			}
 		}
 		cc := &vlib.ChildCase{Unprivileged: pl.unprivileged, StraceInject: pl.inject, History: &vlib.HistoryCase{Threads: pl.threads, Calls: pl.calls, Policies: used, Probes: probeNrs}}
+		if pi%4 == 2 {
+			cc.GCSpray = 1 + (pi/4)%3
+			run.Count("histories_with_gc_and_allocation_spray_before_every_seccomp_call", 1)
+		}
 		res, err := vlib.RunChild(bin, "history", cc, pl.strace, 60*time.Second)
 		if err != nil || res.TimedOut || res.Line("done") == nil {
 			run.Count("watchdog_or_crash", 1)
